@@ -44,17 +44,17 @@ def _exe():
     return os.path.join(target, 'release', 'witness')
 
 
-def run_search(domain, seed=1, timeout=900):
+def run_search(domain, seed=1, timeout=1800, scale=1):
     t0 = time.time()
     exe = _exe()
     cmd = [exe, 'search', domain, str(seed)]
-    p = subprocess.run(cmd, capture_output=True, text=True, timeout=timeout)
+    p = subprocess.run(cmd, capture_output=True, text=True, timeout=timeout, env=dict(os.environ, WITNESS_SCALE=str(scale)))
     line = [l for l in p.stdout.split('\n') if l.startswith('{')]
     if not line:
         raise RuntimeError('witness search produced no verdict: ' + p.stderr[-500:])
     r = json.loads(line[-1])
     r['wall_s'] = time.time() - t0
-    r['cmd'] = ' '.join(cmd)
+    r['cmd'] = 'WITNESS_SCALE=%d ' % scale + ' '.join(cmd)
     return r
 
 
